@@ -121,3 +121,12 @@ where
         Ok(())
     }
 }
+
+/// Parses a raw-format change record: (number of modifications, previous holes).
+#[cfg(feature = "verif")]
+pub fn verif_parse_raw_change<T: crate::BytesVecValue>(
+    bytes: &[u8],
+) -> Result<(usize, BTreeSet<usize>)> {
+    let d = ReadWriteRawVec::<usize, T, crate::BytesStrategy<T>>::parse_raw_change_data(bytes)?;
+    Ok((d.modifications.len(), d.prev_holes))
+}
